@@ -457,7 +457,8 @@ def _r2(ctx):
     else:
         ctx.missing("R2", "Reaction.__init__:idxfromfile", ("naunet/reactions/reaction.py", init.lineno), "parameter idxfromfile vanished")
     # reader: int(key)
-    h = pkg.method("RenderCommand", "handle")
+    from .c20 import _render_handle
+    h = _render_handle(pkg)
     ctx.saw(RENDER, "RenderCommand.handle")
     conv = None
     # by role: the local handed to Network(rate_modifier=...)
@@ -519,7 +520,8 @@ def _r2(ctx):
 
 def _r3(ctx):
     pkg = package(ctx.tree)
-    fn = pkg.method("TemplateLoader", "render")
+    # (the decision may have been moved into a helper of the class: put back first; _prepare_ode_content stays the call the rule is about)
+    fn = pkg.expanded("TemplateLoader", "render", keep=("_prepare_ode_content", "_prepare_renorm_content", "_render", "_prepare_contents"))
     ctx.saw(FILE, "TemplateLoader.render")
     fl = Flow(fn, FILE)
     calls = [f for f in fl.facts if f.kind == "call" and f.target == "reindex"]
